@@ -10,5 +10,6 @@ func init() {
 			"optional blanks/tabs around a traceparent value and empty tracestate list-members are not counted as malformed; empty list-members do not count towards the limit of 32",
 			"of the trace flags only the sampled bit is compared across a round trip; re-injected flags must be 00 or 01",
 			"which entry of a pre-filled carrier is the traceparent / tracestate header follows the storage type's documented addressing (http.Header: canonical MIME key, first field line; map: exact key); a reachable stale tracestate that survives Inject of a span context without tracestate is not judged (TextMapCarrier has no delete)",
+			"the round trip of a carrier is judged whatever the caller does with OTHER carriers in between (carriers copied from it, deeply or sharing http.Header field-line slices) and whatever other goroutines inject into / extract from their own carriers at the same moment (oracle: the sequential round trip per goroutine; no claim about two goroutines using one carrier)",
 		))
 }
